@@ -478,8 +478,9 @@ class Formula:
             raise RuntimeError
 
         if self.name in module.funcs:
-            func = module.funcs[self.name]
-            self.__init__(func=func)
+            name = self.name    # A lambda is named by its cells
+            func = module.funcs[name]
+            self.__init__(func=func, name=name)
         else:
             self.__init__(func=NULL_FORMULA)
 
